@@ -10,9 +10,12 @@ import (
 	"encoding/base64"
 	"encoding/json"
 	"fmt"
+	"net/http"
 	"testing"
 	"time"
 
+	"github.com/google/certificate-transparency-go/trillian/ctfe"
+	"github.com/google/certificate-transparency-go/x509"
 	"github.com/google/trillian"
 	"pgregory.net/rapid"
 
@@ -38,6 +41,7 @@ type Case struct {
 	LogKeyIdx  int
 	ClockNs    int64
 	Steps      []Step
+	QuotaUsers bool // configure RemoteQuotaUser and CertificateQuotaUser (per-issuer quota charging)
 }
 
 var logKinds = []string{"p256", "p256", "p384", "rsa2048", "rsa3072"}
@@ -46,6 +50,7 @@ func gen(t *rapid.T) Case {
 	c := Case{LogKeyKind: rapid.SampledFrom(logKinds).Draw(t, "logkey"), LogKeyIdx: rapid.IntRange(0, 3).Draw(t, "logkeyidx")}
 	// any instant from 1970 to ~2200 with sub-millisecond parts
 	c.ClockNs = rapid.Int64Range(0, 7258118400).Draw(t, "sec")*1e9 + rapid.Int64Range(0, 999999999).Draw(t, "ns")
+	c.QuotaUsers = rapid.Bool().Draw(t, "quota")
 	n := rapid.IntRange(1, 8).Draw(t, "steps")
 	fresh := 0
 	for i := 0; i < n; i++ {
@@ -128,9 +133,12 @@ func check(t *testing.T, c Case) (v harness.Verdict) {
 	logKey := keys.Pick(c.LogKeyKind, c.LogKeyIdx)
 	be := reflog.New(6962, 1)
 	clock := ctfex.NewClock(time.Unix(0, c.ClockNs))
-	inst, err := ctfex.New(ctfex.Opts{LogKey: logKey, Roots: world.Roots(), Backend: be, Clock: clock})
+	inst, err := ctfex.New(ctfex.Opts{LogKey: logKey, Roots: world.Roots(), Backend: be, Clock: clock, Inst: quotaOpts(c.QuotaUsers)})
 	if err != nil {
 		t.Fatalf("instance: %v", err)
+	}
+	if c.QuotaUsers {
+		v.Class("quota-users-configured")
 	}
 	wantID := sha256.Sum256(logKey.SPKI)
 	type first struct {
@@ -292,6 +300,17 @@ func check(t *testing.T, c Case) (v harness.Verdict) {
 		}
 	}
 	return v
+}
+
+// quotaOpts switches on the two optional quota-charging callbacks of the front end.
+func quotaOpts(on bool) func(*ctfe.InstanceOptions) {
+	if !on {
+		return nil
+	}
+	return func(io *ctfe.InstanceOptions) {
+		io.RemoteQuotaUser = func(r *http.Request) string { return "remote-user" }
+		io.CertificateQuotaUser = func(c *x509.Certificate) string { return "@intermediate " + c.Subject.CommonName }
+	}
 }
 
 func describe(b *world.Built) string {
